@@ -129,18 +129,18 @@ Theorem C05_refuted_F05b_all : forall reg t imported,
   delivers imported (json_path reg t) (want_json t) = false.
 Proof. exact json_path_cast_fails. Qed.
 Print Assumptions C05_refuted_F05b_all.
-(* F05c: a secondary 2xx with content never yields the text or the bytes *)
-Theorem C05_refuted_F05c_all : forall reg o p n r m ct imported,
+(* F05c fixed part: a further 2xx response whose content is text only returns response.text *)
+Theorem C05_partial_secondary_text : forall reg o p n r m h ct imported,
   cprocessed o = Some (p, n) -> st_streaming (resolve o) = false -> m <> n -> find_status m (cothers o) = Some r -> lead2 m = true ->
-  cr_content r <> [] ->
-  delivers imported (handle reg o m ct) WText = false /\ delivers imported (handle reg o m ct) WBytes = false.
-Proof. exact secondary_never_text_or_bytes. Qed.
-Print Assumptions C05_refuted_F05c_all.
+  handler_schema (cr_content r) = Some h -> raw_accessor (cr_content r) (c_type h) = Some PText ->
+  handle reg o m ct = PText /\ delivers imported (handle reg o m ct) WText = true.
+Proof. exact secondary_text. Qed.
+Print Assumptions C05_partial_secondary_text.
 (* F05g FIXED: a "2XX" range that is the primary response handles every otherwise undeclared 2xx status *)
 Theorem C05_wildcard_primary : forall reg o w st ct,
   cprocessed o = None -> find_status st (cothers o) = None ->
   wildcard_resp o = Some w -> is_strategy_resp o w = true -> 200 <= st < 300 ->
-  handle reg o st ct = if is_none_ret (resolve o) then PNone else strategy_path reg (nd_of o) (resolve o) ct.
+  handle reg o st ct = if is_none_ret (resolve o) then PNone else strategy_path reg (nd_of o) (pc_of o) (resolve o) ct.
 Proof. exact handle_wildcard_primary. Qed.
 Print Assumptions C05_wildcard_primary.
 
@@ -148,8 +148,12 @@ Theorem C05_refuted_F05b : guard_bits d_F05b = [false; true; true; true]
   /\ the_path d_F05b = PCast /\ the_want d_F05b = WJsonTyped (TLib [100;97;116;101;116;105;109;101]) /\ C05_holds d_F05b = false.
 Proof. exact refuted_F05b. Qed.
 Print Assumptions C05_refuted_F05b.
-Theorem C05_refuted_F05c : guard_bits d_F05c = [true; false; true; true]
-  /\ the_path d_F05c = PCast /\ the_want d_F05c = WText /\ C05_holds d_F05c = false.
+Theorem C05_fixed_F05c_text : c05_guard d_F05c_text = true /\ the_path d_F05c_text = PText /\ C05_holds d_F05c_text = true
+  /\ c05_guard d_F05c_text2 = true /\ the_path d_F05c_text2 = PText /\ C05_holds d_F05c_text2 = true.
+Proof. exact fixed_F05c_text. Qed.
+Print Assumptions C05_fixed_F05c_text.
+Theorem C05_refuted_F05c : guard_bits d_F05c = [true; false; true; false]
+  /\ the_path d_F05c = PStreamSse /\ the_want d_F05c = WJsonTyped (TClass [73;116;101;109]) /\ C05_holds d_F05c = false.
 Proof. exact refuted_F05c. Qed.
 Print Assumptions C05_refuted_F05c.
 (* F05f fixed for application/x-ndjson (regression on the old witness); json-seq / multipart remain open *)
